@@ -106,6 +106,22 @@ def build(repo=None):
 
             eng.method_models["match"] = m_match
 
+            def m_other_pattern_method(mname):
+                # any other re.Pattern method (search, fullmatch, findall ...) answers a DIFFERENT question than the documented
+                # 'the pattern matches the dtype name' (re.match: anchored at the start): its own uninterpreted predicate
+                def m(e, s, recv, args, kwargs, node):
+                    if isinstance(recv, Z) and recv.kind == "dtspec" and len(args) == 1:
+                        a = args[0]
+                        nm = a.t if isinstance(a, Z) and a.kind == "str" else z3.Function("py_as_str", U, STR)(e.as_u(s, a))
+                        r = Opaque(f"re.{mname}-result")
+                        e._memo_truth[r.t.get_id()] = z3.Function(f"Pat_{mname}", U, STR, BOOL)(getattr(DtSpec, "Pattern.pat")(recv.t), nm)
+                        return [(s.fork(DtSpec.is_Pattern(recv.t)), r)]
+                    return None
+                return m
+
+            for mname in ("search", "fullmatch", "findall", "finditer"):
+                eng.method_models[mname] = m_other_pattern_method(mname)
+
             def m_rsplit(e, s, recv, args, kwargs, node):
                 if isinstance(recv, Z) and recv.kind == "str":
                     return [(s, Tup([Opaque("rsplit-head"), Z("str", RTail(recv.t))], True))]
@@ -375,7 +391,7 @@ def build(repo=None):
         ob.setdefault("kind", "vc")
         c = ob["clause"]
         if c.startswith("C04:"):
-            ob["serves"] = ["C04", "C12", "C13"]  # C13: the bindings listed in an error are none taken from the check that failed
+            ob["serves"] = ["C04", "C12", "C13", "C01", "C02"]  # C01/C02: a non-accepting or raising check leaves the bindings as they were (the spec's post-state on those verdicts);  # C13: the bindings listed in an error are none taken from the check that failed
         elif c.startswith("C01:") or c.startswith("call:"):
             ob["serves"] = ["C01", "C02", "C17", "C16"]
         ob["function"] = FUNC
